@@ -200,6 +200,10 @@ pub struct BatchStats {
     pub read_ahead_events: Cell<u64>,
     pub calls: Cell<u64>,
     pub kinds: RefCell<BTreeMap<&'static str, u64>>,
+    /// wrapped iterators that pulled from their source at construction time (before any output was requested)
+    pub eager_fills: Cell<u64>,
+    /// times a wrapped iterator polled its source again after the source had returned `None`
+    pub polls_after_exhaustion: Cell<u64>,
 }
 
 pub struct Chunked<I: Iterator> {
@@ -211,10 +215,17 @@ pub struct Chunked<I: Iterator> {
     stats: Rc<BatchStats>,
     kind: &'static str,
     counted: bool,
+    /// polite: never poll the source again once it has returned `None`
+    polite: bool,
+    source_exhausted: bool,
 }
 
 impl<I: Iterator> Chunked<I> {
     pub fn new(iter: I, plan: ChunkPlan, stats: Rc<BatchStats>, kind: &'static str) -> Self {
+        Self::with_manners(iter, plan, stats, kind, false)
+    }
+
+    pub fn with_manners(iter: I, plan: ChunkPlan, stats: Rc<BatchStats>, kind: &'static str, polite: bool) -> Self {
         let mut me = Self {
             iter,
             buffer: VecDeque::new(),
@@ -224,11 +235,28 @@ impl<I: Iterator> Chunked<I> {
             stats,
             kind,
             counted: false,
+            polite,
+            source_exhausted: false,
         };
         if !plan.passthrough && plan.eager {
+            me.stats.eager_fills.set(me.stats.eager_fills.get() + 1);
             me.fill();
         }
         me
+    }
+
+    fn pull(&mut self) -> Option<I::Item> {
+        if self.source_exhausted {
+            if self.polite {
+                return None;
+            }
+            self.stats.polls_after_exhaustion.set(self.stats.polls_after_exhaustion.get() + 1);
+        }
+        let x = self.iter.next();
+        if x.is_none() {
+            self.source_exhausted = true;
+        }
+        x
     }
 
     fn next_chunk_size(&mut self) -> usize {
@@ -238,11 +266,14 @@ impl<I: Iterator> Chunked<I> {
     }
 
     fn fill(&mut self) {
-        if self.plan.all {
-            self.buffer.extend(self.iter.by_ref());
-        } else {
-            let n = self.next_chunk_size();
-            self.buffer.extend(self.iter.by_ref().take(n));
+        // (written with explicit pulls so that polling an exhausted source again is observable and can be switched off;
+        // like `extend(iter.by_ref().take(n))`, a short chunk is followed by another poll on the next fill)
+        let n = if self.plan.all { usize::MAX } else { self.next_chunk_size() };
+        for _ in 0..n {
+            match self.pull() {
+                Some(x) => self.buffer.push_back(x),
+                None => break,
+            }
         }
         if !self.yielded_any && !self.counted && self.buffer.len() >= 2 {
             self.counted = true;
@@ -256,7 +287,7 @@ impl<I: Iterator> Iterator for Chunked<I> {
     type Item = I::Item;
     fn next(&mut self) -> Option<Self::Item> {
         if self.plan.passthrough {
-            return self.iter.next();
+            return self.pull();
         }
         if self.buffer.is_empty() {
             self.fill();
@@ -281,12 +312,19 @@ pub struct BatchingAdapter<A> {
     pub inner: A,
     pub schedule: RefCell<VecDeque<CallPlan>>,
     pub stats: Rc<BatchStats>,
+    /// never poll an exhausted input again (see `Chunked::polite`)
+    pub polite: bool,
 }
 
 impl<A> BatchingAdapter<A> {
     pub fn new(inner: A, schedule: Vec<CallPlan>) -> (Self, Rc<BatchStats>) {
         let stats = Rc::new(BatchStats::default());
-        (Self { inner, schedule: RefCell::new(schedule.into()), stats: stats.clone() }, stats)
+        (Self { inner, schedule: RefCell::new(schedule.into()), stats: stats.clone(), polite: false }, stats)
+    }
+    pub fn new_polite(inner: A, schedule: Vec<CallPlan>) -> (Self, Rc<BatchStats>) {
+        let (mut me, stats) = Self::new(inner, schedule);
+        me.polite = true;
+        (me, stats)
     }
     fn next_plan(&self) -> CallPlan {
         self.stats.calls.set(self.stats.calls.get() + 1);
@@ -309,7 +347,7 @@ impl<'a, A: Adapter<'a> + 'a> Adapter<'a> for BatchingAdapter<A> {
     ) -> VertexIterator<'a, Self::Vertex> {
         let plan = self.next_plan();
         let inner = self.inner.resolve_starting_vertices(edge_name, parameters, resolve_info);
-        Box::new(Chunked::new(inner, plan.output, self.stats.clone(), "start_out"))
+        Box::new(Chunked::with_manners(inner, plan.output, self.stats.clone(), "start_out", self.polite))
     }
 
     fn resolve_property<V: AsVertex<Self::Vertex> + 'a>(
@@ -321,9 +359,9 @@ impl<'a, A: Adapter<'a> + 'a> Adapter<'a> for BatchingAdapter<A> {
     ) -> ContextOutcomeIterator<'a, V, FieldValue> {
         let plan = self.next_plan();
         let input: ContextIterator<'a, V> =
-            Box::new(Chunked::new(contexts, plan.input, self.stats.clone(), "property_in"));
+            Box::new(Chunked::with_manners(contexts, plan.input, self.stats.clone(), "property_in", self.polite));
         let inner = self.inner.resolve_property(input, type_name, property_name, resolve_info);
-        Box::new(Chunked::new(inner, plan.output, self.stats.clone(), "property_out"))
+        Box::new(Chunked::with_manners(inner, plan.output, self.stats.clone(), "property_out", self.polite))
     }
 
     fn resolve_neighbors<V: AsVertex<Self::Vertex> + 'a>(
@@ -336,16 +374,17 @@ impl<'a, A: Adapter<'a> + 'a> Adapter<'a> for BatchingAdapter<A> {
     ) -> ContextOutcomeIterator<'a, V, VertexIterator<'a, Self::Vertex>> {
         let plan = self.next_plan();
         let input: ContextIterator<'a, V> =
-            Box::new(Chunked::new(contexts, plan.input, self.stats.clone(), "neighbors_in"));
+            Box::new(Chunked::with_manners(contexts, plan.input, self.stats.clone(), "neighbors_in", self.polite));
         let inner = self.inner.resolve_neighbors(input, type_name, edge_name, parameters, resolve_info);
         let stats = self.stats.clone();
         let nplan = plan.neighbors;
+        let polite = self.polite;
         let mapped = inner.map(move |(ctx, neighbors)| {
             let wrapped: VertexIterator<'a, A::Vertex> =
-                Box::new(Chunked::new(neighbors, nplan, stats.clone(), "neighbor_iter"));
+                Box::new(Chunked::with_manners(neighbors, nplan, stats.clone(), "neighbor_iter", polite));
             (ctx, wrapped)
         });
-        Box::new(Chunked::new(mapped, plan.output, self.stats.clone(), "neighbors_out"))
+        Box::new(Chunked::with_manners(mapped, plan.output, self.stats.clone(), "neighbors_out", self.polite))
     }
 
     fn resolve_coercion<V: AsVertex<Self::Vertex> + 'a>(
@@ -357,9 +396,9 @@ impl<'a, A: Adapter<'a> + 'a> Adapter<'a> for BatchingAdapter<A> {
     ) -> ContextOutcomeIterator<'a, V, bool> {
         let plan = self.next_plan();
         let input: ContextIterator<'a, V> =
-            Box::new(Chunked::new(contexts, plan.input, self.stats.clone(), "coercion_in"));
+            Box::new(Chunked::with_manners(contexts, plan.input, self.stats.clone(), "coercion_in", self.polite));
         let inner = self.inner.resolve_coercion(input, type_name, coerce_to_type, resolve_info);
-        Box::new(Chunked::new(inner, plan.output, self.stats.clone(), "coercion_out"))
+        Box::new(Chunked::with_manners(inner, plan.output, self.stats.clone(), "coercion_out", self.polite))
     }
 }
 
